@@ -87,6 +87,25 @@ def transformRange (s : Stats) (lo hi : Nat) : Nat × Nat :=
   let b := hi - s.min
   ((if a % s.gcd > 0 then a / s.gcd + 1 else a / s.gcd), b / s.gcd)
 
+/-- the whole function: `none` = no row can match (empty query range, or — when the source has
+the guard `if *range.end() < stats.min_value { return None; }` — a range below the minimum) -/
+def transformRangeWith (guard : Bool) (s : Stats) (lo hi : Nat) : Option (Nat × Nat) :=
+  if lo > hi then none
+  else if guard && decide (hi < s.min) then none
+  else some (transformRange s lo hi)
+
+/-- as the current source has it (`Gen.RANGE_BELOW_MIN_GUARD` is regenerated on every run) -/
+def transformRangeCur (s : Stats) (lo hi : Nat) : Option (Nat × Nat) :=
+  transformRangeWith Gen.RANGE_BELOW_MIN_GUARD s lo hi
+
+/-- rows (positions in `s..e`) the bitpacked reader reports for a query range: those whose stored
+normalised value lies in the transformed range (mirrors BitpackedReader::get_row_ids_for_value_range
++ BitUnpacker::get_ids_for_value_range on already decoded normalised values) -/
+def rangeRowsWith (guard : Bool) (s : Stats) (norm : List Nat) (lo hi : Nat) : List Nat :=
+  match transformRangeWith guard s lo hi with
+  | none => []
+  | some r => (List.range norm.length).filter (fun i => decide (r.1 ≤ norm.getD i 0) && decide (norm.getD i 0 ≤ r.2))
+
 /-! ## Line (u64_based/line.rs), wrapping arithmetic on `BitVec 64` -/
 
 structure Line where
